@@ -37,12 +37,14 @@ package c16
 
 import (
 	"encoding/json"
+	"flag"
 	"fmt"
 	"math"
 	"os"
 	"path/filepath"
 	"regexp"
 	"sort"
+	"strconv"
 	"strings"
 	"sync"
 	"testing"
@@ -225,6 +227,15 @@ func normalise(root *parser.Thrift) {
 		for _, s := range t.GetStructLikes() {
 			for _, f := range s.Fields {
 				cv(f.Default)
+			}
+		}
+		// default values of method arguments: DumpIDL does not write them (seen on the repository's
+		// sample1b.thrift; the model never generates them) — a dumper matter (C17), not a trimming one
+		for _, s := range t.Services {
+			for _, f := range s.Functions {
+				for _, a := range f.Arguments {
+					a.Default = nil
+				}
 			}
 		}
 	}
@@ -647,11 +658,14 @@ func judgeCompile(c trimCase, trimmed map[string]string) error {
 		return fmt.Errorf("harness: %v", err)
 	}
 	defer os.RemoveAll(dir)
-	ok, _, err := goCompiles(dir, "orig", c.Files, c.Main, "go")
+	ok, msg, err := goCompiles(dir, "orig", c.Files, c.Main, "go")
 	if err != nil {
 		return err
 	}
 	if !ok {
+		if os.Getenv("C16_SURVEY") != "" {
+			fmt.Fprintln(os.Stderr, "SURVEY orig:", strings.ReplaceAll(msg[max(0, len(msg)-300):], "\n", " "))
+		}
 		vt.Class("compile_sample_original_does_not_compile")
 		return nil
 	}
@@ -837,7 +851,7 @@ type oracleInfo struct {
 	nontrivial                                                         bool
 	sharedChainCut                                                     bool
 	cutExtends                                                         []*idl.Def
-	reference                                                          map[string]string
+	reference                                                          func() map[string]string
 	svcKept, fnKept, fnDropped                                         int
 	preserveEffective                                                  int
 }
@@ -1133,7 +1147,12 @@ func expect(p *idl.Program, a trimArgs) (map[string]*fileExpect, oracleInfo, err
 	if info.removed == 0 {
 		info.nontrivial = false
 	}
-	// the program trimmed on the model side: prune in place, render, restore
+	info.reference = func() map[string]string { return renderReference(p, files, exp, K, keptSvc, keptFn, needUp) }
+	return exp, info, nil
+}
+
+// renderReference gives the program trimmed on the model side: prune in place, render, restore.
+func renderReference(p *idl.Program, files []*idl.File, exp map[string]*fileExpect, K, keptSvc map[*idl.Def]bool, keptFn map[*idl.Func]bool, needUp map[*idl.Def]bool) map[string]string {
 	type saved struct {
 		defs []*idl.Def
 		incs []*idl.File
@@ -1180,9 +1199,9 @@ func expect(p *idl.Program, a trimArgs) (map[string]*fileExpect, oracleInfo, err
 		}
 		f.Defs, f.Includes, f.IncludeLit = defs, incs, lits
 	}
-	info.reference = map[string]string{}
+	out := map[string]string{}
 	for _, f := range p.ReachableFiles() {
-		info.reference[f.Path] = idl.RenderFile(f, nil)
+		out[f.Path] = idl.RenderFile(f, nil)
 	}
 	for f, v := range sf {
 		f.Defs, f.Includes, f.IncludeLit = v.defs, v.incs, v.lits
@@ -1190,7 +1209,7 @@ func expect(p *idl.Program, a trimArgs) (map[string]*fileExpect, oracleInfo, err
 	for d, v := range ss {
 		d.Funcs, d.Extends = v.funcs, v.ext
 	}
-	return exp, info, nil
+	return out
 }
 
 // ------------------------------------------------------------ generators
@@ -1500,10 +1519,16 @@ func genCase(rt *rapid.T, entry string) drawn {
 	if err != nil {
 		rt.Fatalf("harness: %v", err)
 	}
-	c := trimCase{Main: p.Files[0].Path, Files: map[string]string{}, Args: a, Entry: entry, Expect: exp, Reference: info.reference}
+	c := trimCase{Main: p.Files[0].Path, Files: map[string]string{}, Args: a, Entry: entry, Expect: exp, Reference: info.reference()}
 	txt := p.Texts(nil)
 	for _, f := range files {
 		c.Files[f.Path] = txt[f.Path]
+	}
+	if _, err := front(c.Main, c.Files); err != nil {
+		// a flaw of the shared generator (seen: the self-reference field id 30000+n drawn a second time as a
+		// "big" id), not of the trimmer: the case is not in the domain
+		vt.Class("harness_generated_program_rejected")
+		rt.Skip("generated program rejected by the front end: " + err.Error())
 	}
 	return drawn{c: c, info: info, kinds: kinds, desc: p.Describe(), npres: npres}
 }
@@ -1579,7 +1604,7 @@ func record(d drawn) {
 func TestTrimAPI(t *testing.T) {
 	rapid.Check(t, func(rt *rapid.T) {
 		d := genCase(rt, "api")
-		d.c.Compile = rapid.IntRange(0, 29).Draw(rt, "compile") == 0 && os.Getenv("C16_NOCOMPILE") == ""
+		d.c.Compile = rapid.IntRange(0, 49).Draw(rt, "compile") == 0 && os.Getenv("C16_NOCOMPILE") == ""
 		record(d)
 		if err := judge(d.c); err != nil {
 			vt.Fail(rt, prop, "trim", d.c, "%v", err)
@@ -1587,7 +1612,18 @@ func TestTrimAPI(t *testing.T) {
 	})
 }
 
+// binCap: one case of the binary job costs two to five process starts (0.2-0.5 s); a plain
+// `go test -rapid.checks=N` run is capped so that it stays inside go test's default timeout.
+// The job table of cmd/vrun asks for fewer cases than the cap anyway.
+const binCap = 150
+
 func TestTrimBinary(t *testing.T) {
+	if f := flag.Lookup("rapid.checks"); f != nil && os.Getenv("C16_BIN_NOCAP") == "" {
+		if n, err := strconv.Atoi(f.Value.String()); err == nil && n > binCap {
+			flag.Set("rapid.checks", strconv.Itoa(binCap))
+			defer flag.Set("rapid.checks", strconv.Itoa(n))
+		}
+	}
 	rapid.Check(t, func(rt *rapid.T) {
 		d := genCase(rt, "bin")
 		d.c.Compile = rapid.IntRange(0, 5).Draw(rt, "compile") == 0
